@@ -17,6 +17,7 @@ import bcommon as bc
 
 
 def potential_cases(strength):
+    strength = "thorough" if strength == "escalated" else strength
     pts = [[2.0, 0.25, 0.5], [-1.5, 1.0, -0.75], [0.125, 0.25, 3.0], [0.25, 0.25, 0.125]]
     cases = [
         ("tet", ("P", 1, {}), "scalar", None, pts),
@@ -111,7 +112,7 @@ def run_search(cfg):
     # (mesh, refinement levels, interior points, exterior points): all >= one element diameter from the surface
     setups = [("cube12", 2, [[0.5, 0.5, 0.5], [0.45, 0.55, 0.5]], [[2.0, 0.5, 0.25], [0.5, -1.25, 0.5]]),
               ("octa", 2, [[0.0, 0.05, 0.0]], [[2.5, 0.5, 0.25], [0.0, 0.0, -2.5]])]
-    if strength == "thorough":
+    if strength in ("thorough", "escalated"):
         setups.append(("tet", 3, [[0.3, 0.35, 0.2]], [[2.0, 2.0, 2.0], [-1.0, 0.25, 0.25]]))
     orders = (8, 10, 12)
     with bc.PurePython(), np.errstate(all="ignore"):
